@@ -124,9 +124,17 @@ def gen(ctx):
             c['fill'] = r.choice([None, 0, 1, 23, 2.5])
         cases.append(c)
     # unsupported element types
-    for u in ['bool', 'str', 'object', 'datetime', 'struct', 'boollist', 'strlist', 'dict', 'none']:
+    for u in ['bool', 'str', 'object', 'datetime', 'struct', 'boollist', 'strlist', 'dict', 'none',
+              'longdouble', 'clongdouble', 'longdoublescalar', 'timedelta', 'bytes']:
         cases.append(dict(form='unsupported', value=dict(u=u), dtype=None, chunklen=r.choice([None, 1])))
     cases.append(dict(form='nd', value=nd_spec(np.arange(4, dtype='int32')), dtype='bool', chunklen=None))
+    cases.append(dict(form='nd', value=nd_spec(np.arange(4, dtype='int32')), dtype='longdouble', chunklen=None))
+    cases.append(dict(form='nd', value=nd_spec(np.arange(4, dtype='float64')), dtype='clongdouble', chunklen=2))
+    # first axis longer than the range of a narrow integer type: the index grid must not wrap
+    for dt in ('uint8', 'int8', '>i2'):
+        for cl in (None, 7, 300):
+            cases.append(dict(form='fill', shape=[300], dtype=dtype_str(dt.lstrip('>'), 'big' if dt[0] == '>' else 'little'),
+                              chunklen=cl, intshape=False, fillfunc='hmod'))
     return cases
 
 
